@@ -280,6 +280,10 @@ func c18Run(c *fw.Ctx) {
 			return a
 		}
 		host, method, target := hostA, "GET", "/private?x=1&y=%20z"
+		if out == "sign-in-302" || out == "proxied-200" || out == "skip-auth-proxied" {
+			// other methods, including ones a filter in front of the chain might single out
+			method = []string{"GET", "POST", "HEAD", "TRACE", "PROPFIND", "DELETE"}[x.Choose("method", 6)]
+		}
 		hdr := http.Header{}
 		withCookie := func(s *sessions.SessionState) { hdr.Set("Cookie", harness.CookieName+"="+e.Seal(s)) }
 		switch out {
@@ -396,7 +400,7 @@ func c18Run(c *fw.Ctx) {
 			}
 		}
 		if owned {
-			c.Res.Outcome(fmt.Sprintf("%v|%v|%v|%s|%s|%s|%d", secure, override, domain, out, proto, hs.name, resp.Status))
+			c.Res.Outcome(fmt.Sprintf("%v|%v|%v|%s|%s|%s|%s|%d", secure, override, domain, out, method, proto, hs.name, resp.Status))
 			if c.Res.Execs%300 == 5 && mon.last != nil {
 				c.Res.Sample(mon.last)
 			}
@@ -463,7 +467,7 @@ func init() {
 	fw.Register(&fw.Check{
 		ID:    "C18",
 		Level: "exploration",
-		Rule: "a response monitor is the only oracle. (a) dedicated product on the real proxy: outcome {proxied 200, proxied after 103 Early Hints, streamed upstream (flush_interval, no timeout handler) 200 / after 103 / after 102 (these over a real server connection so that interim responses are real), upstream 500, backend down -> 502, backend stalled -> timeout page (the backend blocks until the harness releases it), skip-auth proxied, sign-in 302, XHR 401, 403 page, token-revoked 401 page, 500 page, /oauth2/auth 202 and 401, callback with error / without code / successful (sets session, clears CSRF), sign-out, robots, certs, path-cleaning 301, favicon 404} " +
+		Rule: "a response monitor is the only oracle. (a) dedicated product on the real proxy: outcome {proxied 200, proxied after 103 Early Hints, streamed upstream (flush_interval, no timeout handler) 200 / after 103 / after 102 (these over a real server connection so that interim responses are real), upstream 500, backend down -> 502, backend stalled -> timeout page (the backend blocks until the harness releases it), skip-auth proxied, sign-in 302 (these three also with methods POST, HEAD, TRACE, PROPFIND, DELETE), XHR 401, 403 page, token-revoked 401 page, 500 page, /oauth2/auth 202 and 401, callback with error / without code / successful (sets session, clears CSRF), sign-out, robots, certs, path-cleaning 301, favicon 404} " +
 			"x upstream response headers {none, X-Frame-Options, empty nosniff, X-XSS-Protection 0, duplicated, lower-case names, HSTS max-age=0, duplicated HSTS} x header_overrides {none, X-Frame-Options: DENY} x secure cookies {off, on} x X-Forwarded-Proto {none, http, https, 'http, https', 'https, http', HTTPS} x cookie domain {unset, set} x X-Forwarded-Host {absent, foreign}; (a') each authenticator endpoint x {GET, POST, PUT} without parameters (405 and error pages); " +
 			"(b) every response produced while the quick alphabets of the C06, C13 (proxy) and C08, C09 (authenticator) harnesses are re-driven (thorough: also C01 and C07). " +
 			"Monitor: the three proxy headers exactly once with the proxy's or the override's value; with secure cookies exactly the proxy's HSTS and a 301 to https://<same host><same decoded path>?<same query> for plain HTTP; session/CSRF Set-Cookie with the configured Secure, HttpOnly, Path=/ and Domain = request host without port or the configured domain; the authenticator's six-header set on its sign-in, sign-out, OAuth and token endpoints; " +
